@@ -1482,6 +1482,12 @@ func (fr *Frame) unop(st *State, x *ssa.UnOp) *Term {
 		v := ex.load(st, p, x.Type())
 		ex.assume(st, ex.tm.WellTyped(v, x.Type(), 1))
 		ex.assume(st, ex.loadedRefFacts(v, x.Type(), 1))
+		if g, ok := x.X.(*ssa.Global); ok {
+			if iv := ex.globalInitValue(fr, st, g); iv != nil && iv.sort == v.sort {
+				ex.trustedUsed["package-level variable keeps the value its package init gives it (never reassigned): "+g.String()] = true
+				ex.assume(st, f.Eq(v, iv))
+			}
+		}
 		if g, ok := x.X.(*ssa.Global); ok && ex.W.nonNilGlobal(g) {
 			ex.trustedUsed["package-level error variable set once by an error constructor in init is non-nil: "+g.String()] = true
 			ex.assume(st, f.Gt(v, f.Int(0)))
